@@ -445,6 +445,25 @@ def check_class(case):
     return out
 
 
+def check_go_backscatter(case):
+    """geometrical-optics backscatter (transmissivity = 1 - a numerical hemispherical integral): bounds only, at the default and at the
+    other value of shadow_correction and over the whole range of slopes; deviations below 0.02 are those of the quadrature and are
+    reported under their own key"""
+    key0 = f"{case['side']}.{case['module']}"
+    try:
+        s, t = eval_case(case)
+    except Exception as e:  # noqa
+        return [] if refusal(e) else [(f"{key0}:error", f"{type(e).__name__}: {e}", "a value")]
+    lo, hi = float(min(s[:2].min(), t[:2].min())), float(max(s[:2].max(), t[:2].max()))
+    if not (np.all(np.isfinite(s[:2])) and np.all(np.isfinite(t[:2]))):
+        return [(f"{key0}:finite", f"specular={s.tolist()} transmission/emissivity={t.tolist()} with {case['kw']}", "finite")]
+    if lo < -SLACK or hi > 1 + SLACK:
+        slight = lo >= -0.02 and hi <= 1.02
+        return [(f"{key0}:bounds" + (":slight" if slight else ""), f"specular={s[:2].tolist()} transmission/emissivity={t[:2].tolist()} with {case['kw']}, "
+                 f"eps {case['e1']} -> {case['e2']}, mu={case['mu']}", "both in [0,1]")]
+    return []
+
+
 def required_of(case):
     cls = plugin_class(case["side"], case["module"])
     return list(getattr(cls, "args", []))
@@ -528,7 +547,8 @@ def check_defaults(inp):
     return out[:1]
 
 
-CHECKS = {"fresnel": check_fresnel, "class": check_class, "smooth": check_smooth, "adapter": check_adapter, "defaults": check_defaults}
+CHECKS = {"fresnel": check_fresnel, "class": check_class, "smooth": check_smooth, "adapter": check_adapter, "defaults": check_defaults,
+          "go": check_go_backscatter}
 
 
 def run_check(inp):
@@ -553,6 +573,16 @@ def oracle(ctx, hints, effort):
     # the smallest known way to break the slab pseudo-interface: zero thickness, vacuum above, eps = 3+4j below, normal incidence
     record({"kind": "class", "side": "interface", "module": "coherent_flat", "f": 10e9, "e1": [1.0, 0.0], "e2": [3.0, 4.0], "mu": 1.0,
             "how": "normal", "npol": 2, "kw": {}, "slab": [[1.0, 0.0], 0.0]})
+    # the fixed witness of the slightly negative transmissivity of the geometrical-optics backscatter model (quadrature of the hemispherical
+    # integral; grazing incidence from the denser medium)
+    for side in ("interface", "substrate"):
+        record({"kind": "go", "side": side, "module": "geometrical_optics_backscatter", "f": 10e9, "e1": [3.0, 0.0], "e2": [1.5, 0.0], "mu": 0.05,
+                "how": "uniform", "npol": 2, "kw": {"mean_square_slope": 0.01}})
+    # the non-default option shadow_correction=False over a reflective lower medium at grazing incidence, small to large slopes
+    for side in ("interface", "substrate"):
+        for mss in (0.1, 0.5, 1.0):
+            record({"kind": "go", "side": side, "module": "geometrical_optics_backscatter", "f": 10e9, "e1": [1.0, 0.0], "e2": [30.0, 10.0], "mu": 0.1,
+                    "how": "uniform", "npol": 2, "kw": {"mean_square_slope": mss, "shadow_correction": False}})
     for h in hints[:60]:
         d = h.get("desc")
         if isinstance(d, dict) and d.get("kind") == "class":
@@ -578,6 +608,14 @@ def oracle(ctx, hints, effort):
                 if REG[(side, module)][0] == "nullspec":
                     continue                                # 1 - numerical integral: slow, and bounded by construction only approximately
                 record(case)
+            if REG[(side, module)][0] == "nullspec":
+                for j in range(16 if big else 6):
+                    case = sample_case(rng, side, module)
+                    case["kind"] = "go"
+                    case["kw"] = {"mean_square_slope": float(rng.choice([0.01, 0.03, 0.1, 0.3, 0.6, 1.0])), "shadow_correction": bool(j % 2)}
+                    if j % 3 == 0:          # a reflective lower medium seen at grazing incidence
+                        case["e1"], case["e2"], case["mu"] = [1.0, 0.0], [float(rng.uniform(20, 80)), float(rng.uniform(5, 40))], float(rng.uniform(0.05, 0.2))
+                    record(case)
             if REG[(side, module)][0] in ("reflector", "reflectorb"):
                 for arg in (0.0, 0, 1.0, 1, {"V": 0.0, "H": 1.0}):
                     case = sample_case(rng, side, module)
